@@ -23,7 +23,7 @@ RULE = ('one case = (2-4 measurement declarations from a pool of 14: scalar / 1-
         'set incl. overrides, wrong-length and unhashable coordinates, undeclared name, '
         'dimensioned without coordinates; values from ints, floats around limits, None, NaN, '
         '+-inf, strings, bools; body catches per-operation exceptions or not; diagnosis for '
-        'conditional validators present or absent); all histories of length <= 2 (quick) / 3 '
+        'conditional validators present (ordinary or internal diagnosis) or absent); all histories of length <= 2 (quick) / 3 '
         '(thorough) over a reduced alphabet are enumerated, longer ones are sampled; distinct '
         '= distinct case; non-trivial = at least one snapshot was compared')
 ASSUMPTIONS = [
@@ -248,11 +248,11 @@ def enumerated(tier):
         if tier == 'thorough' and length == 3 and (hash((sd, dd, seq)) % 7):
           continue
         yield {'decls': [sd, dd], 'ops': [core[i] for i in seq], 'catch': True,
-               'diag': (sd + dd + length) % 2 == 0}
+               'diag': [True, False, 'internal'][(sd + dd + length) % 3]}
   for d in range(len(DECLS)):
     for v in range(len(VALUES)):
       for catch in (True, False):
-        for diag in (True, False):
+        for diag in (True, False, 'internal'):
           if DECLS[d][1] == 0:
             yield {'decls': [d], 'ops': [['set', 0, v]], 'catch': catch,
                    'diag': diag}
@@ -284,7 +284,7 @@ def sampled(tier, rng):
       else:
         ops.append(['setd', mi, rng.randrange(8), rng.randrange(len(VALUES))])
     yield {'decls': decls, 'ops': ops, 'catch': rng.random() < .8,
-           'diag': rng.random() < .5}
+           'diag': rng.choice([True, False, 'internal'])}
 
 
 # ------------------------------------------------------------------ running
@@ -348,7 +348,7 @@ def run_case(case):
   if case['diag']:
     @H.PhaseDiagnoser(R, name='pre_diag')
     def pre_diag(phase_record):
-      return H.Diagnosis(R.D1, 'x')
+      return H.Diagnosis(R.D1, 'x', is_internal=case['diag'] == 'internal')
 
     def pre(test):
       pass
